@@ -764,3 +764,16 @@ def expand_const_comp(t):
                     for c in it[1]))
         return x
     return merge_fstr(map_term(t, f))
+
+
+def strip_materialise(t):
+    """list(zip(...)) / tuple(map(...)) / list(enumerate(...)) -> the lazy
+    sequence itself (same elements in the same order)"""
+    def f(x):
+        if x[0] == "call" and x[1] in ("builtins.list", "builtins.tuple") \
+                and len(x[2]) == 1 and not x[3] and x[2][0][0] == "call" \
+                and x[2][0][1] in ("builtins.zip", "builtins.map",
+                                   "builtins.enumerate", "builtins.range"):
+            return x[2][0]
+        return x
+    return map_term(t, f)
